@@ -326,6 +326,14 @@ def _roles(chk):
         init = M(q, "__init__")
         _called_first(chk, "n_modes.called", init, "sanity_check_n_modes", "the SVD wrapper no longer validates n_modes at construction")
         _role(chk, "init_rank_reduction", init, cmp_pred(any_text=("init_rank_reduction",)), "init_rank_reduction outside (0, 1] is no longer refused")
+        # ... and exactly when the number of modes is chosen by explained variance (the only case that uses it)
+        from .common import atomic_conditions
+        iff = FuncFacts.of(init)
+        rr = [r for r in walk_no_nested(init.node) if isinstance(r, ast.Raise) and any("init_rank_reduction" in norm(t) for t, _ in atomic_conditions(iff, r))]
+        okv = bool(rr) and any(("is_based_on_variance" in norm(t) and pol) or ("isinstance(n_modes, int)" in norm(t) and not pol) or ("isinstance(n_modes, float)" in norm(t) and pol)
+                               for t, pol in atomic_conditions(iff, rr[0]))
+        chk.check(okv, "GUARD.role.init_rank_reduction.when", init, rr[0] if rr else init.node, construct=f"{init.qualname}: checked when n_modes is a variance fraction",
+                  why="init_rank_reduction is validated under the wrong condition: with a fractional n_modes (the case that uses it) an invalid value is accepted")
     # rank
     dfit = M("xeofs.linalg.decomposer.Decomposer", "fit")
     _role(chk, "rank", dfit, cmp_pred(any_text=("n_modes_precompute", "rank")), "more modes than the rank of the data are no longer refused",
